@@ -43,6 +43,7 @@ type deps struct {
 	oracle  map[int]bool
 	muts    []int
 	verifyN int
+	fixed   [][2]int // oracle outcomes that the call itself determines (reported with the case)
 }
 
 const (
@@ -332,11 +333,21 @@ func specs() []handlerSpec {
 			return err
 		}},
 		{13, "gossip.Announce", []field{{40, hashLens}, {10, strLens}}, nil, []int{oVerify1}, func(d *deps, l map[int]int, s map[int]bool) error {
-			_, err := gsp(d).Announce(ctx, &protobufcompiled.ConnectionData{PublicAddress: strOf(l[10]), Url: "u", CreatedAt: 1, Digest: bytesOf(l[40]), Signature: []byte{1}})
+			vg := gossip.VerifNewGossiper(nolog{}, time.Second, d, d, d, d, d, d, "url", nil)
+			d.fixed = [][2]int{{oDial, 1}} // the test node dials lazily and without TLS: dialing a syntactically valid target succeeds
+			_, err := vg.Server().Announce(ctx, &protobufcompiled.ConnectionData{PublicAddress: strOf(l[10]), Url: "127.0.0.1:1", CreatedAt: 1, Digest: bytesOf(l[40]), Signature: []byte{1}})
+			if len(vg.PeerAddresses()) > 0 {
+				d.muts = append(d.muts, mPeer)
+			}
 			return err
 		}},
 		{14, "gossip.Discover", []field{{40, hashLens}, {10, strLens}}, nil, []int{oVerify1}, func(d *deps, l map[int]int, s map[int]bool) error {
-			_, err := gsp(d).Discover(ctx, &protobufcompiled.ConnectionData{PublicAddress: strOf(l[10]), Url: "u", CreatedAt: 1, Digest: bytesOf(l[40]), Signature: []byte{1}})
+			vg := gossip.VerifNewGossiper(nolog{}, time.Second, d, d, d, d, d, d, "url", nil)
+			d.fixed = [][2]int{{oDial, 1}} // the test node dials lazily and without TLS: dialing a syntactically valid target succeeds
+			_, err := vg.Server().Discover(ctx, &protobufcompiled.ConnectionData{PublicAddress: strOf(l[10]), Url: "127.0.0.1:1", CreatedAt: 1, Digest: bytesOf(l[40]), Signature: []byte{1}})
+			if len(vg.PeerAddresses()) > 0 {
+				d.muts = append(d.muts, mPeer)
+			}
 			return err
 		}},
 		{15, "gossip.Alive", nil, nil, nil, func(d *deps, l map[int]int, s map[int]bool) error {
@@ -442,6 +453,7 @@ func main() {
 					}
 					co.muts = append([]int{}, d.muts...)
 					sort.Ints(co.muts)
+					co.orc = append(co.orc, d.fixed...)
 					sum.Evaluations++
 					sum.Kinds[fmt.Sprintf("%s.%d", h.name, co.outcome)]++
 					if co.outcome != 0 {
